@@ -356,6 +356,97 @@ pub fn single_element_list(m: &Model, ctx: &mut Ctx, rule: &str) {
     }
 }
 
+/// C07.nest: "through chains of type references". A value whose governing type is reached through references T1 -> T2 -> T3 is
+/// linked as LinkedNestedValue { supertypes: [T1, T2, T3], value }: each reference is a delegate struct, so the literal is
+/// T1(T2(T3(value))) — outermost first — and the innermost name is what types the literal itself. Both renderers are evaluated.
+pub fn nesting(m: &Model, ctx: &mut Ctx, rule: &str) {
+    use std::collections::BTreeMap as Map;
+    let consts = const_resolver(m);
+    let named = |n: &str, fields: Vec<(&str, Val)>| Val::Ctor(n.to_string(), vec![], fields.into_iter().map(|(k, v)| (k.to_string(), v)).collect::<Map<_, _>>());
+    let nested = named("LinkedNestedValue", vec![("supertypes", Val::List(vec![Val::Str("Outer".into()), Val::Str("Mid".into()), Val::Str("Inner".into())])), ("value", Val::Ctor("Boolean".into(), vec![Val::Bool(true)], Map::new()))]);
+    // (1) value_to_tokens: the wrapping order
+    if let Some(f) = m.fns.iter().find(|f| f.name == "value_to_tokens" && f.self_ty.as_deref() == Some("Rasn")) {
+        ctx.func(&f.key);
+        if let Some(mt) = model::matches_in(&f.block).into_iter().max_by_key(|mt| mt.arms.len()) {
+            let hook = |_: &Evaluator, name: &str, a: &[Val]| -> Option<Result<Val, String>> {
+                match name {
+                    ".to_rust_title_case" => match a.get(1) { Some(Val::Str(n)) => Some(Ok(Val::Sym(n.clone()))), _ => None },
+                    ".value_to_tokens" => Some(Ok(Val::Ctor("Ok".into(), vec![Val::Sym("LIT".into())], Map::new()))),
+                    ".clone" if a.len() == 1 => Some(Ok(a[0].clone())),
+                    _ => None,
+                }
+            };
+            let ev = Evaluator { consts: &consts, call_hook: &hook, inline: None };
+            ctx.oblige(rule, "wrapping-order", true);
+            let mut env = Env::new();
+            env.insert("self".into(), Val::ctor("Rasn"));
+            env.insert("type_name".into(), Val::none());
+            let r = ev.select_arm(&mt, &nested, &env).and_then(|(i, mut e2)| ev.eval(&mt.arms[i].body, &mut e2));
+            match r {
+                Ok(Val::Ctor(ok, p, _)) if ok == "Ok" => {
+                    let t = p.first().map(|v| v.show().replace(' ', "")).unwrap_or_default();
+                    if t != "Outer(Mid(Inner(LIT)))" {
+                        ctx.violate(rule, "wrapping-order", &f.file, crate::rules::util::span_line(&mt), &format!("a value reached through the references Outer -> Mid -> Inner is rendered `{}`, expected `Outer(Mid(Inner(LIT)))`: each reference is a delegate struct around the next", t));
+                    }
+                }
+                Ok(o) => ctx.fail_closed(rule, &format!("[wrapping order]: {}", o.show())),
+                Err(e) => ctx.fail_closed(rule, &format!("[wrapping order]: {}", e)),
+            }
+        }
+    } else {
+        ctx.fail_closed(rule, "anchor not found: Rasn::value_to_tokens");
+    }
+    // (2) generate_value: the literal is typed by the innermost reference
+    if let Some(f) = m.fns.iter().find(|f| f.name == "generate_value" && f.self_ty.as_deref() == Some("Rasn")) {
+        ctx.func(&f.key);
+        if let Some(mt) = model::matches_in(&f.block).into_iter().max_by_key(|mt| mt.arms.len()) {
+            let seen = std::cell::RefCell::new(Vec::<String>::new());
+            let hook = |_: &Evaluator, name: &str, a: &[Val]| -> Option<Result<Val, String>> {
+                match name {
+                    ".to_rust_title_case" => match a.get(1) { Some(Val::Str(n)) => Some(Ok(Val::Sym(n.clone()))), Some(o) => Some(Ok(Val::Sym(o.show()))), _ => None },
+                    ".value_to_tokens" => {
+                        seen.borrow_mut().push(a.get(2).map(|v| v.show()).unwrap_or_default());
+                        Some(Ok(Val::Ctor("Ok".into(), vec![Val::Sym("LIT".into())], Map::new())))
+                    }
+                    ".is_const_type" => Some(Ok(Val::Bool(true))),
+                    ".as_str" if a.len() == 1 => Some(Ok(Val::Str("Outer".into()))),
+                    "call_template!" | "assignment!" => Some(Ok(Val::Ctor("Ok".into(), vec![Val::Sym("item".into())], Map::new()))),
+                    _ => None,
+                }
+            };
+            let ev = Evaluator { consts: &consts, call_hook: &hook, inline: None };
+            ctx.oblige(rule, "innermost-types-the-literal", true);
+            let mut env = Env::new();
+            env.insert("self".into(), Val::ctor("Rasn"));
+            env.insert("ty".into(), Val::Opaque("ty".into()));
+            env.insert("tld".into(), named("ToplevelValueDefinition", vec![("value", nested.clone()), ("name", Val::Str("v".into()))]));
+            let r = ev.select_arm(&mt, &nested, &env).and_then(|(i, mut e2)| {
+                // only the statement that computes the parent name is of interest
+                if let syn::Expr::Block(b) = &*mt.arms[i].body {
+                    for st in &b.block.stmts {
+                        if let syn::Stmt::Local(l) = st {
+                            if let Some(init) = &l.init {
+                                let v = ev.eval(&init.expr, &mut e2)?;
+                                return Ok((tok(&l.pat), v));
+                            }
+                        }
+                    }
+                }
+                Err("the arm for LinkedNestedValue has no leading let".to_string())
+            });
+            match r {
+                Ok((_, v)) => {
+                    let t = v.show();
+                    if !t.contains("Inner") || t.contains("Outer") {
+                        ctx.violate(rule, "innermost-types-the-literal", &f.file, crate::rules::util::span_line(&mt), &format!("for a value reached through Outer -> Mid -> Inner the literal is typed by `{}`; the innermost reference (Inner) names the type the literal belongs to (an enumeral is `Inner::x`)", t));
+                    }
+                }
+                Err(e) => ctx.fail_closed(rule, &format!("[innermost type]: {}", e)),
+            }
+        }
+    }
+}
+
 pub fn run(m: &Model, ctx: &mut Ctx) {
     ctx.explanation = "Only the table clauses of C07 are decided: \
 C07.hex: hex_to_bools equals the 16-row table over exactly the alphabet the hstring lexer accepts (MSB first), and the bstring form maps '1' to true and every other accepted digit to false; the B/H decision follows the suffix letter. \
@@ -642,6 +733,7 @@ Not applicable (run-time values): resolution of references, nested CHOICE/SEQUEN
     inline_named_number(m, ctx, "C07.named");
     cstring_end(m, ctx, "C07.cstring");
     single_element_list(m, ctx, "C07.list");
+    nesting(m, ctx, "C07.nest");
     oid(m, ctx, &ev);
     strings(m, ctx, &ev);
 }
